@@ -113,6 +113,9 @@ pub fn run(cfg: &Cfg, rep: &mut Report) {
             }
         }
         rep.count("linearity_pairs");
+        if i < 2 {
+            rep.sample(|| Json::obj().set("a", format!("{a:#x}")).set("b", format!("{b:#x}")).set("f(a)", format!("{fa:#x}")).set("f(a^b)", format!("{fab:#x}")));
+        }
     });
     let Some(minv) = minv else {
         rep.note("step matrix not invertible: solved-state streams skipped".into());
@@ -172,6 +175,13 @@ pub fn run(cfg: &Cfg, rep: &mut Report) {
         }
         rep.evaluations += chunk - 1;
         rep.case(i, true);
+        if i < 2 {
+            let mant = i * chunk;
+            let y = (mant << 41) | 1;
+            let s = minv.apply(y);
+            let x = Uniform(FLOAT_RANGES[3].0..FLOAT_RANGES[3].1).sample(&mut Xorshift64(s));
+            rep.sample(|| Json::obj().set("mantissa", format!("{mant:#x}")).set("solved_state", format!("{s:#x}")).set("range", format!("{:?}", FLOAT_RANGES[3])).set("sample", f32s(x)));
+        }
         rep.add("float_samples", chunk * FLOAT_RANGES.len() as u64);
         rep.add("bernoulli_samples", chunk * 7);
     });
